@@ -39,6 +39,7 @@ type vMonC07 struct {
 	roll     []byte // rolling digest of this history
 	digests  *vC07Digests
 	failed   bool
+	prevTx   []byte
 }
 
 type vC07Digests struct {
@@ -102,6 +103,28 @@ func (m *vMonC07) AfterTx(h *vHist, o *vTxObs) {
 				m.failed = true
 			}
 		}
+		if ri == 0 {
+			// the first replica has a busy mempool: every tx (and the one before
+			// it, again) passes through CheckTx and a gas simulation before it is
+			// delivered; the primary and the other replica never call either.
+			// Neither may leave a trace in what DeliverTx computes.
+			if !c.open {
+				c.beginBlock()
+			}
+			func() {
+				defer func() {
+					if p := recover(); p != nil {
+						m.res.Count("checktx_or_simulate_panicked", 1)
+					}
+				}()
+				c.app.CheckTx(abci.RequestCheckTx{Tx: o.TxBytes, Type: abci.CheckTxType_New})
+				if m.prevTx != nil {
+					c.app.CheckTx(abci.RequestCheckTx{Tx: m.prevTx, Type: abci.CheckTxType_Recheck})
+				}
+				_, _, _ = c.app.Simulate(o.TxBytes)
+				m.res.Count("checktx_and_simulate_before_deliver", 1)
+			}()
+		}
 		res := c.deliverBytes(o.TxBytes)
 		got := vDetBytes(res)
 		if !bytes.Equal(got, want) && !m.failed {
@@ -113,6 +136,7 @@ func (m *vMonC07) AfterTx(h *vHist, o *vTxObs) {
 			m.res.Count("failed_tx_log_text_differs", 1)
 		}
 	}
+	m.prevTx = o.TxBytes
 	m.res.Distinct(fmt.Sprintf("%s|ok=%v|ev=%d", kind, o.OK, len(o.Res.Events)))
 	if o.OK && len(o.Msgs) == 1 {
 		if s, ok := o.Msgs[0].(*atypes.MsgSignProviderAttributes); ok {
@@ -195,7 +219,7 @@ func (m *vMonC07) End(h *vHist) {
 
 func TestVerif_C07(t *testing.T) {
 	res := vs.NewResult("C07", "exploration",
-		"every tx of seeded histories (audit merges/deletes, provider updates, overdrafts with several payments, lost-bid fan-out weighted up) is delivered as identical bytes to 3 replicas of the real app in one process (the third one is restarted - new application object over the same database - at every third block boundary it crosses): code, data, gas, ordered events (and the log of successful txs) and every block's app hash must be byte-identical; a second OS process with different GOGC/GOMAXPROCS/environment and a third one whose wall clock is shifted by -20 years (time.Now() patched through the build overlay) replay the same seed and their per-history digests are compared with the first. distinct = (message kind, result, number of events)")
+		"every tx of seeded histories (audit merges/deletes, provider updates, overdrafts with several payments, lost-bid fan-out weighted up) is delivered as identical bytes to 3 replicas of the real app in one process (the second one also runs every tx through CheckTx and a gas simulation first; the third one is restarted - new application object over the same database - at every third block boundary it crosses): code, data, gas, ordered events (and the log of successful txs) and every block's app hash must be byte-identical; a second OS process with different GOGC/GOMAXPROCS/environment and a third one whose wall clock is shifted by -20 years (time.Now() patched through the build overlay) replay the same seed and their per-history digests are compared with the first. distinct = (message kind, result, number of events)")
 	res.Assume("replicas run in one address space per process plus one further process; Tendermint consensus itself is not run")
 	res.Floor("attestation_merge_3plus_keys", 50)
 	res.Floor("attestation_delete", 5)
